@@ -258,7 +258,8 @@ def fcn_cases(draw, tier):
             #  published fundamental -- recorded at the advance -- differs from a fresh average over the components)
             "late_component_shock": draw(st.sampled_from([None, 1.1, 0.8])) if with_index else None,
             "agent_seed": draw(st.integers(0, 2**31 - 1)), "group_size": draw(st.sampled_from([1, 1, 2, 3])),
-            "contrarian": draw(st.integers(0, 4)) == 0}
+            "contrarian": draw(st.sampled_from([None, None, None, "after", "before"])),
+            "reweight": draw(st.sampled_from([None, None, None, 2.0, 0.25]))}
 
 
 def fcn_check(case):
@@ -276,9 +277,16 @@ def fcn_check(case):
     group = []
     for g in range(case.get("group_size", 1)):
         ag = FCNAgent(agent_id=7 + g, prng=random.Random(case["agent_seed"] + 1000 * g), simulator=sim, name=f"fcn{g}")
+        if case.get("contrarian") == "before":
+            ag.is_chart_following = False  # chosen in a subclass constructor, i.e. before setup
         _call(ag.setup, settings=shared, accessible_markets_ids=acc)
         if case.get("contrarian"):
+            if case["contrarian"] == "before" and ag.is_chart_following is not False:
+                raise Violation("C20.fcn_contrarian_switch", "is_chart_following was False before setup (a subclass constructor chose it) and setup reset it")
             ag.is_chart_following = False  # the public switch of FCNAgent (a user subclass sets it)
+        if case.get("reweight"):
+            # a regime-switching subclass re-assigns the public weights after setup: the documented combination uses the weights in force
+            ag.fundamental_weight, ag.chart_weight = ag.fundamental_weight * case["reweight"], ag.chart_weight * 0.5
         group.append(ag)
     classes = set()
     if case.get("contrarian"):
